@@ -359,10 +359,10 @@ func cssTokenStarts(input []byte) map[int]bool {
 }
 
 var errFrags = map[string][]string{
-	"css":  {"a", "{", "}", ":", ";", "(", ")", "[", "]", "@media", "@x", "b:c", "\n", " ", "/*", "*/", "*", "* ", "*\n\n  ", "*/*c*/", ";;", "\"", "'", "url(", "\\", "é", "#", ",", "!important", "\x00", "--x", "<!--"},
+	"css":  {"a", "{", "}", ":", ";", "(", ")", "[", "]", "@media", "@x", "b:c", "\n", " ", "/*", "*/", "*", "* ", "*\n\n  ", "*/*c*/", ";;", "\"", "'", "url(", "\\", "é", "#", ",", "!important", "\x00", "--x", "<!--", "@MEDIA", "@Supports ", "@Font-Face", "COLOR:", "DIV", "A"},
 	"json": {"{", "}", "[", "]", ",", ":", `"a"`, `"`, "1", "-", "true", "nul", " ", "\n", "\x00", "é", "x", "@", "\r\n"},
-	"xml":  {"<a", ">", "/>", "</a>", " b='c'", " b=\"c\"", "<!--", "-->", "<![CDATA[", "]]>", "<?xml", "?>", "<!DOCTYPE", "[", "]", "text", "\n", "\x00", "é", " "},
-	"html": {"<a", ">", "/>", "</a>", " b=c", "<svg>", "</svg>", "<math>", "</math>", "<script>", "</script>", "\"", "text", "\n", "\x00", "é", "<!--", "-->", "<xml>", "</xml>"},
+	"xml":  {" b='c\nd'", " e=\"f\tg\r\nh\"", "<a", ">", "/>", "</a>", " b='c'", " b=\"c\"", "<!--", "-->", "<![CDATA[", "]]>", "<?xml", "?>", "<!DOCTYPE", "[", "]", "text", "\n", "\x00", "é", " "},
+	"html": {"<DIV", " CLASS=x", "</Svg>", "<SVG>", "<a", ">", "/>", "</a>", " b=c", "<svg>", "</svg>", "<math>", "</math>", "<script>", "</script>", "\"", "text", "\n", "\x00", "é", "<!--", "-->", "<xml>", "</xml>"},
 	"js": {"a", "=", "1", ";", "(", ")", "{", "}", "[", "]", "\n", " ", "@", "#", "\\", "`", "${", "'", "\"", "/", "/*", "*/", "//", "0x", "1n", "1a", "é", " ", "§", "\x01", "let", "function", "=>", "...", "?.", "~=", "class", "\x00", "\r\n", "if",
 		// the errors that are raised with a message of their own (redeclaration, restricted productions, arrow parameters)
 		"let a;", "let a", "const a=1;", "class a{}", "var a;", "throw\n", "if(x)let[", "(a+b)=>", "(1)=>", "function a(){}", "{", "}", "x=>"},
@@ -370,6 +370,7 @@ var errFrags = map[string][]string{
 
 func TestProp_ParserErrors(t *testing.T) {
 	ev.Describe("parsererrors", "valid-UTF-8 fragment strings per language (css, json, xml, html, js lexer, js parser x Options) incl. NUL, multi-byte runes and all line breaks; every *parse.Error obtained (css.Parser.Err, json.Parser.Err, xml/html Lexer.Err, js Lexer.Err, js.Parse) must equal Position(input, o) in line, column and context for some o in [0,len], for the css parser and the js lexer (which go on after an error) for some o inside the bytes that the failing call (css: and, because of the one-token look-ahead, the call before it) consumed; non-trivial = a *parse.Error was produced on an input with >= 2 lines or a multi-byte rune")
+	_, k15 := ev.KnownFindings("C15")["K-C15-1"]
 	ev.Check(t, 20000, func(t *rapid.T) {
 		lang := rapid.SampledFrom([]string{"css", "json", "xml", "html", "js", "jsparse"}).Draw(t, "lang")
 		fr := errFrags[lang]
@@ -414,17 +415,29 @@ func TestProp_ParserErrors(t *testing.T) {
 				}
 			}
 		case "xml":
-			l := xml.NewLexer(in())
+			xin := in()
+			l := xml.NewLexer(xin)
 			for i := 0; i < budget; i++ {
 				if tt, _ := l.Next(); tt == xml.ErrorToken {
+					if k15 && !bytes.Equal(xin.Bytes(), input) {
+						// K-C15-1: the lexer has normalised attribute values in its buffer, the error is positioned on that
+						ev.Excluded("parsererrors", "K-C15-1")
+						break
+					}
 					got = checkError(t, "xml.Lexer", input, l.Err())
 					break
 				}
 			}
 		case "html":
-			l := html.NewLexer(in())
+			hin := in()
+			l := html.NewLexer(hin)
 			for i := 0; i < budget; i++ {
 				if tt, _ := l.Next(); tt == html.ErrorToken {
+					if k15 && !bytes.Equal(hin.Bytes(), input) {
+						// K-C15-1: the lexer has lower-cased names in its buffer, the context shows that
+						ev.Excluded("parsererrors", "K-C15-1")
+						break
+					}
 					got = checkError(t, "html.Lexer", input, l.Err())
 					break
 				}
